@@ -65,6 +65,8 @@ def run(ctx):
         n_w = 14
         names = gen.model_names(rng, n_m)
         truth = convcheck.make_truth(rng, n_m, n_ap, n_w, names=names, wav_range=(0.3, 300.0))
+        if multi:   # aperture table spanning well over a decade, so that distinct band apertures fit inside it
+            truth.apertures = float(gen.loguniform(rng, 10.0, 300.0)) * np.cumprod(np.concatenate([[1.0], rng.uniform(2.5, 8.0, n_ap - 1)]))
         if multi:
             # neighbouring apertures differ by >= 5% in flux
             inc = rng.uniform(0.08, 0.6, (n_m, n_ap, n_w))
